@@ -113,6 +113,8 @@ impl WhereClauseBuilder {
             let ty = match ty {
                 Type::TraitObject(t) if (t.bounds.len() > 1 || t.bounds.trailing_punct()) => syn::parse_quote!((#ty)),
                 Type::ImplTrait(t) if (t.bounds.len() > 1 || t.bounds.trailing_punct()) => syn::parse_quote!((#ty)),
+                // `where <T>::Assoc: Trait` is read as generic parameters on the where-clause, `(<T>::Assoc): Trait` is not.
+                Type::Path(p) if matches!(&p.qself, Some(q) if q.as_token.is_none()) => syn::parse_quote!((#ty)),
                 _ => ty.clone(),
             };
             ws.push(f(&ty));
